@@ -246,6 +246,17 @@ def http_beacon_config(draw, printable=True):
     get_steps = _rename_reserved(draw(valid_client_program(kinds=("metadata",), printable=printable)))
     post_steps = _rename_reserved(draw(valid_client_program(kinds=draw(st.sampled_from([("id", "output"), ("output", "id")])), printable=printable)))
     recover_steps = draw(valid_recover_program())
+    # data placed with uri-append may itself contain the text of the configured URI again (never at its start, where it
+    # would make the routing ambiguous): only the leading base URI is stripped before decoding
+    if draw(st.integers(0, 3)) == 0:
+        def echo(steps, text):
+            if any(n == "URI_APPEND" for n, _ in steps):
+                at = next(i for i, (n, _) in enumerate(steps) if n == "URI_APPEND")
+                return steps[:at] + [("APPEND", text)] + steps[at:]
+            return steps
+
+        get_steps = echo(get_steps, "".join(get_uris).encode())
+        post_steps = echo(post_steps, submit_uri.encode())
     domains = draw(st.lists(st.sampled_from(["127.0.0.1", "localhost", "c2.example.com"]), min_size=1, max_size=2, unique=True))
     pairs = [(domains[i % len(domains)], u) for i, u in enumerate(get_uris)]
     return {
